@@ -36,6 +36,8 @@ spec fn sym_fits(orig: u16) -> bool { forall|n: Seq<char>| (#[trigger] sym_index
 uninterp spec fn remaining(r: CommandReader) -> nat;
 /// the command the next read will deliver (None = end of input)
 uninterp spec fn next_cmd(r: CommandReader) -> Option<Command<'static>>;
+/// the command the most recent read delivered (ghost history of the external reader; None before the first read)
+uninterp spec fn last_cmd(r: CommandReader) -> Option<Command<'static>>;
 /// guarantee of the command parser relied upon here: `step into` counts are clamped to >= 1
 spec fn cmd_wf(c: Command) -> bool { c matches Command::StepInto { count } ==> count >= 1 }
 
@@ -52,7 +54,7 @@ spec fn is_readonly_cmd(c: Command) -> bool {
 }
 /// fields of the debugger that only the named commands may touch
 spec fn same_ctl(a: Debugger, b: Debugger) -> bool {
-    b.status == a.status && b.breakpoints.0@ == a.breakpoints.0@ && b.current_breakpoint == a.current_breakpoint
+    b.status == a.status && b.breakpoints.0@ == a.breakpoints.0@
 }
 spec fn regs_only(a: RunState, b: RunState) -> bool {
     b.mem == a.mem && b.pc == a.pc && b.flag == a.flag && b.orig == a.orig && b._psr == a._psr
@@ -81,6 +83,9 @@ spec fn same_bps(a: Debugger, b: Debugger) -> bool { b.breakpoints.0@ == a.break
 spec fn bounds_status(d: Debugger, s: RunState) -> Status {
     if !in_user(d.asm_source.orig, s.pc as int) { Status::WaitForAction } else { d.status }
 }
+/// the remembered breakpoint cannot mask a breakpoint at `pc`: every call of next_action follows either the constructor, an
+/// executed instruction (increment_instruction_count clears it) or a refusal to execute outside user space
+spec fn cb_fresh(d: Debugger, pc: u16) -> bool { d.current_breakpoint is None || !in_user(d.asm_source.orig, pc as int) }
 spec fn bp_hit(d: Debugger, pc: u16) -> bool { bp_has(d.breakpoints.0@, pc) && d.current_breakpoint != Some(pc) }
 spec fn pre_status(d: Debugger, s: RunState) -> Status {
     if bp_hit(d, s.pc) || at_halt(s) { Status::WaitForAction } else { bounds_status(d, s) }
@@ -88,6 +93,28 @@ spec fn pre_status(d: Debugger, s: RunState) -> Status {
 /// one instruction will be executed by the run loop after `Proceed`
 spec fn will_execute(orig: u16, s: RunState) -> bool { in_user(orig, s.pc as int) && !at_halt(s) }
 
+/// C10: the status with which next_action hands control back (Proceed) right after the resuming command `c` was read on
+/// machine `s` — the instruction under the PC is the one on the machine AS IT IS NOW (after any goto / reset / move / eval)
+spec fn after_resume(c: Command, s: RunState) -> Status {
+    match c {
+        Command::Continue => Status::Continue,
+        Command::StepOver => Status::StepOver { return_addr: add16(s.pc, 1) },
+        Command::StepInto { count } => if count >= 2 { Status::StepInto { count: (count - 2) as u16 } } else { Status::WaitForAction },
+        Command::StepOut => if sig_spec(s.mem[s.pc as int]) == Some(SignificantInstr::Return) { Status::WaitForAction } else { Status::Finish },
+        _ => Status::WaitForAction,
+    }
+}
+spec fn is_resuming(c: Command) -> bool { c is Continue || c is StepOver || c is StepInto || c is StepOut }
+/// the status a resuming command leaves at the head of next_action's loop
+spec fn resume_status(c: Command, s: RunState) -> Status {
+    match c {
+        Command::Continue => Status::Continue,
+        Command::StepOver => Status::StepOver { return_addr: add16(s.pc, 1) },
+        Command::StepInto { count } => Status::StepInto { count: (count - 1) as u16 },
+        Command::StepOut => Status::Finish,
+        _ => Status::WaitForAction,
+    }
+}
 /// next_action consumed at least one command between a and b
 spec fn na_consumed(a: Debugger, b: Debugger) -> bool { remaining(b.command_reader) < remaining(a.command_reader) }
 spec fn stepover_reached(p: Status, s: RunState) -> bool { p matches Status::StepOver { return_addr } && s.pc == return_addr }
